@@ -141,8 +141,8 @@ def record(scenarios, workdir, tag):
 
 
 ACC = re.compile(r'^<<"ACC", (\d+)>>')
-AT = re.compile(r'^<<"AT", (\d+), (\d+), "([^"]*)", (-?\d+), "([^"]*)">>')
-SYM = re.compile(r'^<<"SYM", (\d+), \{(.*)\}>>')
+AT = re.compile(r'^"AT\|(\d+)\|(\d+)\|([^|"]*)\|(-?\d+)\|([^|"]*)"$')
+SYM = re.compile(r'^"SYM\|(\d+)\|(.*)"$')
 
 
 def validate(trf, workdir, diag=False):
@@ -155,14 +155,14 @@ def validate(trf, workdir, diag=False):
         raise tlc.TlcFailure("trace validation did not complete:\n" + out[-3000:])
     acc = set()
     front = {}
-    for line in tlc.printed(out):
+    for line in out.splitlines():
         m = ACC.match(line)
         if m:
             acc.add(int(m.group(1)))
             continue
         m = SYM.match(line)
         if m:
-            front[("sym", int(m.group(1)))] = re.findall(r'"(C\d+)"', m.group(2))
+            front[("sym", int(m.group(1)))] = re.findall(r'(C\d+)', m.group(2))
             continue
         m = AT.match(line)
         if m:
@@ -759,3 +759,13 @@ def simulate_scenarios(count, seed, workdir, family="nested"):
                                  "flavour": [rng.choice(["abs", "job"]) for _ in range(n)],
                                  "verbose": False, "prep": 0}})
     return scen
+
+
+def symptoms_of(traces, workdir):
+    """trace-level property symptoms (OrchestraSymptoms) of each trace, by TLC"""
+    trf = os.path.join(workdir, "sym-%d.json" % id(traces))
+    with open(trf, "w") as out:
+        json.dump(traces, out)
+    _, front, _, _ = validate(trf, workdir, diag=True)
+    os.remove(trf)
+    return [front.get(("sym", i + 1), []) for i in range(len(traces))]
